@@ -25,6 +25,29 @@ type Mem struct {
 	lazyMems  []*Mem
 }
 
+// memAlias: a `preserves cond: patterns` clause of a callee, applied to a wildcard havoc.
+type memAlias struct {
+	patterns []string
+	cond     string
+	guard    string
+	pre      *Mem
+}
+
+func (a memAlias) matches(key string) bool { return keyMatches(a.patterns, key) }
+
+func keyMatches(patterns []string, key string) bool {
+	for _, p := range patterns {
+		if pre, wild := isWildKey(p); wild {
+			if strings.HasPrefix(key, pre) {
+				return true
+			}
+		} else if p == key {
+			return true
+		}
+	}
+	return false
+}
+
 type wildHavoc struct {
 	prefix string
 	epoch  int
@@ -147,6 +170,12 @@ type VC struct {
 	epoch         int
 	freeResults   []SVal
 	selectOrd     map[*ssa.Select]int
+	aliases       map[int][]memAlias // by wildcard epoch: memories equal to the pre-call ones when cond holds
+	bound         string             // allocation bound at the current point (see newObj)
+	boundOut      map[*ssa.BasicBlock]string
+	epochBound    map[int]string // allocation bound right after the call that made a wildcard epoch
+	pendingBound  string         // bound to state for object-component memories declared right now
+	localAlloc    bool           // the allocation being executed is a non-escaping local
 }
 
 type debugBinding struct {
@@ -211,8 +240,21 @@ func (vc *VC) memGet(m *Mem, key string, leaf Sort) string {
 	}
 	if w, ok := m.wildFor(key); ok {
 		// same (epoch, key) always names the same unknown memory, whichever clone asks first
+		savedBound := vc.pendingBound
+		vc.pendingBound = vc.epochBound[w.epoch]
 		name := vc.declMem(fmt.Sprintf("$Mw%d_%s", w.epoch, sanitize(key)), key, leaf, true)
+		vc.pendingBound = savedBound
 		m.m[key] = name // materialise, so that joins merge it like any other memory
+		// `preserves cond: patterns` clauses of the call that produced this epoch
+		if !vc.declared["pres:"+name] {
+			vc.declared["pres:"+name] = true
+			for _, a := range vc.aliases[w.epoch] {
+				if a.matches(key) {
+					pre := vc.memGet(a.pre, key, leaf)
+					vc.fact(a.guard, implies(a.cond, eq(name, pre)))
+				}
+			}
+		}
 		return name
 	}
 	if len(m.lazyMems) > 0 {
@@ -227,10 +269,7 @@ func (vc *VC) memGet(m *Mem, key string, leaf Sort) string {
 		}
 		t := terms[len(terms)-1]
 		if !same {
-			for i := len(terms) - 2; i >= 0; i-- {
-				t = ite(m.lazyConds[i], terms[i], t)
-			}
-			t = vc.def("Mj_"+key, memSort(leaf), t)
+			t = vc.joinMem(key, leaf, m.lazyConds, terms)
 		}
 		m.m[key] = t
 		return t
@@ -257,6 +296,8 @@ func (vc *VC) declMem(name, key string, leaf Sort, twoLevel bool) string {
 		hi := ""
 		if strings.HasPrefix(name, "$M0_") {
 			hi = fmt.Sprintf(" (< (select (select %s o) i) $A0)", name)
+		} else if vc.pendingBound != "" {
+			hi = fmt.Sprintf(" (< (select (select %s o) i) %s)", name, vc.pendingBound)
 		}
 		vc.emit(fmt.Sprintf("(assert (forall ((o Int) (i Int)) (! (and (< 0 (select (select %s o) i))%s) :pattern ((select (select %s o) i)))))", name, hi, name))
 		return name
@@ -267,8 +308,16 @@ func (vc *VC) declMem(name, key string, leaf Sort, twoLevel bool) string {
 		hi := ""
 		if strings.HasPrefix(name, "$M0_") {
 			hi = fmt.Sprintf(" (< (select (select %s o) i) $A0)", name)
+		} else if vc.pendingBound != "" {
+			// memory produced by a call: every object it mentions existed when the call returned
+			hi = fmt.Sprintf(" (< (select (select %s o) i) %s)", name, vc.pendingBound)
 		}
 		vc.emit(fmt.Sprintf("(assert (forall ((o Int) (i Int)) (! (and (<= 0 (select (select %s o) i))%s) :pattern ((select (select %s o) i)))))", name, hi, name))
+		return name
+	}
+	if (strings.HasSuffix(key, "#l") || strings.HasSuffix(key, "#f") || strings.HasSuffix(key, "#c")) && twoLevel {
+		// offset / length / capacity components of stored slices and strings are non-negative
+		vc.emit(fmt.Sprintf("(assert (forall ((o Int) (i Int)) (! (<= 0 (select (select %s o) i)) :pattern ((select (select %s o) i)))))", name, name))
 		return name
 	}
 	if key == "buffer.len" {
@@ -450,7 +499,8 @@ func (vc *VC) embFn(T types.Type, field string) string {
 		vc.emit(fmt.Sprintf("(declare-fun %s (Int Int) Int)", n))
 		// embedded objects are non-nil
 		// and are exactly as old as the object they are embedded in
-		vc.emit(fmt.Sprintf("(assert (forall ((o Int) (f Int)) (! (and (< 0 (%s o f)) (= (>= (%s o f) $A0) (>= o $A0))) :pattern ((%s o f)))))", n, n, n))
+		// (embedded parts of non-escaping locals, which have negative ids, are far below zero)
+		vc.emit(fmt.Sprintf("(assert (forall ((o Int) (f Int)) (! (and (=> (< o 0) (< (%s o f) (- 1000000))) (=> (>= o 0) (and (< 0 (%s o f)) (= (>= (%s o f) $A0) (>= o $A0))))) :pattern ((%s o f)))))", n, n, n, n))
 	}
 	return n
 }
